@@ -19,7 +19,7 @@ RULE = ('(a) the whole option table of TCPHiddenServiceEndpoint (ephemeral not g
         'create_filesystem_authenticated_onion_endpoint and through the onion: string parser (with controlPort=): refused or not, which refusal, '
         'what was settled, and that nothing was started; (b) listen() on the real endpoint over the real protocol against the fake Tor and a '
         'reactor whose listenTCP hands out a recording listening port: ephemeral (no auth, basic auth), filesystem (explicit and implicit '
-        'directory), versions 2/3, with and without a key, x a failure injected at each step: configuration Deferred fails, yields a non-config, '
+        'directory), versions 2/3, with and without a key, with and without a requested local_port (the port actually bound is what must be forwarded to), x a failure injected at each step: configuration Deferred fails, yields a non-config, '
         'configuration bootstrap fails, local bind fails, ADD_ONION / SETCONF rejected, every descriptor upload failed, connection lost during the '
         'wait — and no failure. Observed in order: listeners bound (interface, port), the forwarding Tor is asked for, listeners closed, the '
         'result (address: onion host and public port; stopListening closes the listener), whether it came before the upload was confirmed. Both '
@@ -200,7 +200,7 @@ def run_listen(c):
         elif fail == 'notConfig':
             config = defer.succeed(object())
         auth = AuthBasic(['alice']) if c['kind'] == 'eph-basic' else None
-        ep = TCPHiddenServiceEndpoint(reactor, config, c['public'], hidden_service_dir=hsdir, auth=auth,
+        ep = TCPHiddenServiceEndpoint(reactor, config, c['public'], hidden_service_dir=hsdir, auth=auth, local_port=c.get('local_port'),
                                       ephemeral=(False if c['kind'] == 'fs-implicit' else None),
                                       private_key=('ED25519-V3:abcd' if c['key'] and c['kind'].startswith('eph') else None), version=c['version'])
         if c['kind'].startswith('fs'):
@@ -336,16 +336,16 @@ def gen_cases(rng, tier):
         yield {'api': 'validate', 'how': 'tor', 'ephemeral': None, 'dir': d, 'auth': a, 'stealth_arg': False, 'key': k, 'single': h}
     for d, k, h in itertools.product([False, True], [False, True], [False, True]):
         yield {'api': 'validate', 'how': 'string', 'ephemeral': None, 'dir': d, 'auth': 'n', 'stealth_arg': False, 'key': k, 'single': h}
-    for kind, version, key, fail, public in itertools.product(['eph', 'eph-basic', 'fs-explicit', 'fs-implicit'], [2, 3, None], [False, True],
-                                                              ['none', 'config', 'notConfig', 'bootstrap', 'bind', 'command', 'uploads', 'disconnect'],
-                                                              [80, 443]):
+    for kind, version, key, fail, (public, local_port) in itertools.product(
+            ['eph', 'eph-basic', 'fs-explicit', 'fs-implicit'], [2, 3, None], [False, True],
+            ['none', 'config', 'notConfig', 'bootstrap', 'bind', 'command', 'uploads', 'disconnect'], [(80, None), (443, None), (80, 4321)]):
         if key and not kind.startswith('eph'):
             continue
         if kind == 'eph-basic' and version == 3:
             continue        # v3 ephemeral services have no client authorisation
         if kind == 'eph-basic' and fail in ('none', 'uploads', 'disconnect'):
             continue        # its descriptor wait needs a real RSA key from Tor to recognise the service (not provided by the fake Tor)
-        yield {'api': 'listen', 'kind': kind, 'version': version, 'key': key, 'fail': fail, 'public': public}
+        yield {'api': 'listen', 'kind': kind, 'version': version, 'key': key, 'fail': fail, 'public': public, 'local_port': local_port}
 
 
 def classify(r):
